@@ -298,7 +298,35 @@ def r10(cx):
         base = norm(ups[0].func.value)
         cx.check(base in ("self.__get__(instance)", "self[index]"), ups[0], construct=f"{base}._update(value)", detail="update acts on the located element", bad_detail="in-place update is not applied to the located element", sub="dispatch")
         cx.check(norm(wrs[0].args[0]) in ("instance._buffer", "self._buffer") and norm(wrs[0].args[1]) == "offset" and norm(wrs[0].args[2]) == "value", wrs[0], construct=short(wrs[0]), detail="value written at the located offset of the same buffer", bad_detail="write does not target (own buffer, located offset, value)", sub="dispatch")
+    # R3: cached part offsets are re-read from the buffer after every rewrite that can move parts
+    au = m.func("array::Array._update")
+    fl = Flow(au)
+    wr = [c for c in own_nodes(au) if isinstance(c, ast.Call) and call_name(c) == "_to_buffer"]
+    ref = [s_ for s_ in own_nodes(au) if isinstance(s_, ast.Assign) and norm(s_.targets[0]) == "self._offsets"]
+    okr = False
+    why = "Array._update rewrites an array of dynamically sized items but never refreshes self._offsets: a kept handle addresses the old item positions"
+    for s_ in ref:
+        v = norm(s_.value)
+        after = wr and fl.ordered_before(wr[0], s_)
+        if ("_from_buffer(" in v or "_array_from_buffer(" in v) and after:
+            okr = True
+        elif "info.offsets" in v:
+            why = "the cache is refreshed from the plan (info.offsets), but _to_buffer's binary-copy arm writes the SOURCE array's offset table: a same-class value whose items carry spare capacity leaves the handle with wrong item offsets"
+    cx.check(okr, ref[0] if ref else au, construct="Array._update: self._offsets re-read from the buffer after the rewrite", detail="a kept handle sees the item positions that were actually written", bad_detail=why, sub="refresh")
     su = m.func("struct::Struct._update")
+    fl = Flow(su)
+    cps = [c for c in own_nodes(su) if isinstance(c, ast.Call) and call_name(c) == "update_from_xbuffer"]
+    for c in cps:
+        refreshed = False
+        for s_ in own_nodes(su):
+            if isinstance(s_, ast.Assign) and norm(s_.targets[0]).startswith("self._offsets") and ("_from_buffer(" in norm(s_.value)) and fl.ordered_before(c, s_):
+                same_arm = {id(x.test) for x in fl.conds_at(c)} <= {id(x.test) for x in fl.conds_at(s_)}
+                loops = fl.loops_at(s_)
+                full = (not loops) or norm(loops[-1].iter) in ("self._d_fields", "self._fields")
+                if same_arm and full:
+                    refreshed = True
+        cx.check(refreshed, c, construct="Struct._update: after the binary copy the cached offsets of the dynamic fields are re-read from the buffer", detail="a struct of equal size may lay out its dynamic fields differently",
+                 bad_detail="after byte-copying another instance the handle keeps the offsets of the OLD layout: reading a dynamic field through the same handle addresses wrong bytes", sub="refresh")
     src = norm(su)
     cx.check("for field in self._fields" in src and "if field.name in value" in src and "field.__set__(self, value[field.name])" in src, su, construct="Struct._update: field-wise through Field.__set__ for the keys present", detail="only named fields change, each through its own setter", bad_detail="Struct._update does not go field-wise through Field.__set__", sub="struct")
 
